@@ -3,6 +3,8 @@
 //
 //   reset                      destroy the context, create a fresh one, clock := 0
 //   script <name> <hex-source> compile (recompile = true)
+//   source <name> <hex-source> only store the text: the engine finds it by name through IFileManagement
+//                              (`thread aux.scr::label`, `exec aux.scr`) and compiles it on first use
 //   call <name> <label|-> <arg>*   ExecuteThread(script, Event(args), label); arg = i<int> | s<hex> | n
 //   thread-result              re-read the Event of the last `call` (asynchronous result)
 //   advance <ms>               clock += ms
@@ -233,6 +235,8 @@ int main()
                 imemstream stream(src.data(), src.size());
                 const ProgramScript* s = g_ctx->GetDirector().GetProgramScript(t[1].c_str(), stream, true);
                 if (!s || !s->IsCompileSuccess()) status = "err CompileFailed";
+            } else if (op == "source" && t.size() == 3) {
+                g_sources[t[1]] = unhex(t[2]);
             } else if (op == "call" && t.size() >= 3) {
                 std::unique_ptr<Event> ev(new Event);
                 for (size_t i = 3; i < t.size(); ++i) {
